@@ -317,6 +317,9 @@ def run_ops(args):
                          "pat": r.pattern} for r in c.records]
                 rng.shuffle(recs)
                 w.new(recs, c.delimiter, True, extra)
+        elif k == "discover":
+            if op["i"] <= len(w.convs):
+                w.discover(op["i"], op["uris"], extra)
         elif k == "reuse":
             if op["i"] <= len(w.convs):
                 w.reuse(op["i"], op.get("recs", []), extra)
@@ -381,6 +384,8 @@ def _reindex(ev, rm):
             n["rec"] = rec(o["rec"])
         elif k == "sub":
             n["P"] = [rm[x] for x in o["P"]]
+        elif k == "discover":
+            n["uris"] = [rm[x] for x in o["uris"]]
         elif k in ("remap_curie", "remap_uri", "rewire"):
             n["m"] = [[rm[a], rm[b]] for a, b in o["m"]]
         elif k == "load":
